@@ -137,9 +137,9 @@ PROPS = {
         assumptions=[VARW,
             'PROVED for every value: the fixed-width primitives listed in the obligations (Kani harnesses, loop-free / fully unwound over the full domain) and the compound header writers (Verus)',
             'BOUNDED ONLY (listed under bounded_obligations, never counted as proved): decoders on short byte strings, compound headers with hostile size/count bytes',
-            'NOT DECIDED: arbitrary nesting of lists/maps/arrays/described values (the element loop of the serde visitor chain), the derive-macro output for the typed protocol items (performatives, SASL bodies, delivery states, messages) -- serde visitor code is outside the Verus subset and too large for CBMC beyond small bounds',
-            'compound header writers: the call-site fact count <= byte length (every element occupies at least one byte in this implementation) is assumed; the serde SerializeSeq/Map impls that call them are not under contract',
-            'messages: Message::serialize is proved to hand the serializer exactly the sections that are set, in the AMQP order, and the Message visitor (visit_seq, FieldVisitor::visit_u64) to rebuild the same sections from them (lemma_message_round_trip, all 64 presence combinations, body descriptors 0x75-0x77); the encoding of each section value (derive output), the body types (incl. batches of Data/AmqpSequence) and symbolic descriptors (visit_str) are not under contract']),
+            'PROVED per function since session 8 (units DEENTRY, SERENTRY, SEQACCESS, DESCDISPATCH, VISITENUM, NEWTYPES, WIRELAYOUT, ENUMCODES, ERRCOND): every typed entry point of the deserializer and every compound serializer of ser.rs (the generic visitor / value is a recording stand-in), the descriptor / constructor dispatchers and visit_enum of the typed protocol enums, the names the AMQP-specific types announce themselves with, the wire layout of the 28 derive-macro composites read from their declarations, the restricted types and error-condition symbols in both directions. NOT DECIDED: the composition over arbitrary nesting (the induction over the serde visitor chain is not mechanised: each step is under contract, the chain is not), the derive macro itself (serde_amqp_derive: proc-macro code; that it writes / reads fields in declaration order is decided by the bounded composite probes), the Serialize / Deserialize impls of Value, Described, Array (deserialize side), Body and batches',
+            'compound header writers: the call-site fact count <= byte length (every element occupies at least one byte in this implementation) is assumed; the serde SerializeSeq / Tuple / Map / Struct / TupleStruct impls that call them are under contract in unit SERENTRY (count = elements serialized, body = their octets, position = the enclosing one); the size twin (size_ser.rs compound serializers) is not -- see DESIGN section 8 for the three arms in which it differs from ser.rs',
+            'messages: Message::serialize is proved to hand the serializer exactly the sections that are set, in the AMQP order, and the Message visitor (visit_seq, FieldVisitor::visit_u64) to rebuild the same sections from them (lemma_message_round_trip, all 64 presence combinations, body descriptors 0x75-0x77); the encoding of each section value (derive output), the body types (incl. batches of Data/AmqpSequence) are not under contract; the symbolic descriptors (visit_str) of the dispatchers are (unit DESCDISPATCH)']),
     'C05': dict(
         probes=[COMPOSITE_VARIANTS, RT_VALUE_CLASSES,
                 dict(name='spec_defaults_of_elided_fields', kind='agreement', target='serde_amqp::from_slice~fe2o3_amqp_types-composites', args=['C05.spec-defaults'],
@@ -150,7 +150,7 @@ PROPS = {
         assumptions=[VARW,
             'PROVED for every value: the fixed-width primitives listed in the obligations (Kani harnesses, loop-free / fully unwound over the full domain) and the compound header writers (Verus)',
             'BOUNDED ONLY (listed under bounded_obligations, never counted as proved): decoders on short byte strings, compound headers with hostile size/count bytes',
-            'NOT DECIDED: arbitrary nesting of lists/maps/arrays/described values (the element loop of the serde visitor chain), the derive-macro output for the typed protocol items (performatives, SASL bodies, delivery states, messages) -- serde visitor code is outside the Verus subset and too large for CBMC beyond small bounds',
+            'PROVED per function since session 8 (units DEENTRY, SERENTRY, SEQACCESS, DESCDISPATCH, VISITENUM, NEWTYPES, WIRELAYOUT, ENUMCODES, ERRCOND): every typed entry point of the deserializer and every compound serializer of ser.rs (the generic visitor / value is a recording stand-in), the descriptor / constructor dispatchers and visit_enum of the typed protocol enums, the names the AMQP-specific types announce themselves with, the wire layout of the 28 derive-macro composites read from their declarations, the restricted types and error-condition symbols in both directions. NOT DECIDED: the composition over arbitrary nesting (the induction over the serde visitor chain is not mechanised: each step is under contract, the chain is not), the derive macro itself (serde_amqp_derive: proc-macro code; that it writes / reads fields in declaration order is decided by the bounded composite probes), the Serialize / Deserialize impls of Value, Described, Array (deserialize side), Body and batches',
             'compound header writers: the call-site fact count <= byte length (every element occupies at least one byte in this implementation) is assumed; the serde SerializeSeq/Map impls that call them are not under contract']),
     'C20': dict(
         probes=[COMPOSITE_VARIANTS, RT_VALUE_CLASSES, dict(name='size_of_described_composites', kind='agreement', target='serde_amqp::{serialized_size,to_vec} on fe2o3_amqp_types composites', args=['C20.size-composites'],
@@ -167,11 +167,11 @@ PROPS = {
         assumptions=[
             'PROVED for every value: the fixed-width primitives listed in the obligations (Kani harnesses, loop-free / fully unwound over the full domain) and the compound header writers (Verus)',
             'BOUNDED ONLY (listed under bounded_obligations, never counted as proved): decoders on short byte strings, compound headers with hostile size/count bytes',
-            'NOT DECIDED: arbitrary nesting of lists/maps/arrays/described values (the element loop of the serde visitor chain), the derive-macro output for the typed protocol items (performatives, SASL bodies, delivery states, messages) -- serde visitor code is outside the Verus subset and too large for CBMC beyond small bounds',
+            'PROVED per function since session 8 (units DEENTRY, SERENTRY, SEQACCESS, DESCDISPATCH, VISITENUM, NEWTYPES, WIRELAYOUT, ENUMCODES, ERRCOND): every typed entry point of the deserializer and every compound serializer of ser.rs (the generic visitor / value is a recording stand-in), the descriptor / constructor dispatchers and visit_enum of the typed protocol enums, the names the AMQP-specific types announce themselves with, the wire layout of the 28 derive-macro composites read from their declarations, the restricted types and error-condition symbols in both directions. NOT DECIDED: the composition over arbitrary nesting (the induction over the serde visitor chain is not mechanised: each step is under contract, the chain is not), the derive macro itself (serde_amqp_derive: proc-macro code; that it writes / reads fields in declaration order is decided by the bounded composite probes), the Serialize / Deserialize impls of Value, Described, Array (deserialize side), Body and batches',
             'compound header writers: the call-site fact count <= byte length (every element occupies at least one byte in this implementation) is assumed; the serde SerializeSeq/Map impls that call them are not under contract'] + ['to_value/from_value vs bytes: decided only on the samples of the bounded probes tree_vs_bytes_* (value/ser.rs and value/de.rs are serde visitor code outside the Verus subset)',
-            'PROVED for every input (unit READERS): SliceReader and IoReader satisfy ONE Read contract (peek/peek_bytes consume nothing, next/read_exact/read_bytes consume exactly what they return, in order), so decoding from a slice and from a stream see the same bytes and leave the same bytes behind; the LazyValue/byte_buf scanner takes exactly one encoded value (length by the AMQP constructor rule) -- the decoders built on top (de.rs) are not under contract']),
+            'PROVED for every input (unit READERS): SliceReader and IoReader satisfy ONE Read contract (peek/peek_bytes consume nothing, next/read_exact/read_bytes consume exactly what they return, in order), so decoding from a slice and from a stream see the same bytes and leave the same bytes behind; the LazyValue/byte_buf scanner takes exactly one encoded value (length by the AMQP constructor rule) -- the typed entry points built on top (de.rs) are under contract in units READERS / SEQACCESS / ANYDISPATCH / DEENTRY']),
     'C04': dict(
-        units=['READERS', 'SEQACCESS', 'BYTEREADER', 'DEENTRY', 'DESCDISPATCH', 'ERRCOND'], kani=K_TOTAL3 + K_HDR_QUICK + K_HDR_THOROUGH, level='proof', title='Decoding untrusted bytes (reader layer proved; decoders bounded)',
+        units=['READERS', 'SEQACCESS', 'BYTEREADER', 'DEENTRY', 'DESCDISPATCH', 'ERRCOND'], kani=K_TOTAL3 + K_HDR_QUICK + K_HDR_THOROUGH, level='proof', title='Decoding untrusted bytes (reader layer and typed entry points proved; recursion depth and whole-value decoding bounded)',
         probes=[
             dict(name='nest_list32', target='serde_amqp::from_slice::<Value>', args=['nest', '100000'],
                  claim='decoding 100000 nested list32 headers (a 900 KB input) as Value returns (Ok or Err) instead of exhausting an 8 MiB stack',
